@@ -55,6 +55,17 @@ CLAIMED['C19'] = (
     'string equality inside the table is interned to integers; registry entries are enumerated by forking on the index '
     'variable (finite, complete); hash() kept structural.',
     'DESIGN.md §4 C19', TECH)
+CLAIMED['C15'] = (
+    'One CrossHair contract per (group class, group-level attribute) is generated from the real classes\' own property '
+    'lists and checked with symbolic group size (0..3 / 0..4), value kind, scalar and List[int] (len <=4 / <=5): scalar '
+    'reaches every member, a sequence of group length is assigned element-wise, any other length raises ValueError and '
+    'changes nothing, the getter returns the members\' values in order, and every documented attribute has a working '
+    'setter bound to its own name. Further contracts: index / slice / unique-name lookup, parent is the group, foreign '
+    'observer types rejected, observe() observes each member once. "Confirmed over all paths" is required.',
+    'members are Python subclasses of the real raysect observers with the broadcast attributes shadowed by plain storage; '
+    'classes x attributes enumerated from the code (stated), sizes and values decided by CrossHair/z3; BolometerCamera '
+    '(no broadcast attributes, needs full foil/slit geometry) and the ndarray value kind are outside the claim.',
+    'DESIGN.md §4 C15', 'CrossHair 0.0.110: symbolic execution of the real Python classes with z3, generated PEP316 contracts')
 NOT_YET = {}
 props = [json.loads(l) for l in open(os.path.join(HERE, 'properties.jsonl'))]
 checks, na = [], []
@@ -68,7 +79,7 @@ for p in props:
             'thorough_cmd': './check %s --tier thorough' % i,
             'evidence_file': 'evidence/%s.json' % i,
             'replay_cmd_template': './check %s --replay {path}' % i,
-            'engine': 'symx',
+            'engine': 'crosshair' if i == 'C15' else 'symx',
             'level_claimed': {'category': 'other', 'text': text, 'design_ref': ref},
             'level_note': note,
             'technique': tech,
@@ -82,7 +93,8 @@ m = {
               'baseline_off_cmd': 'cd /repo && /venv/bin/python -m pytest -ra -q -p no:cacheprovider --timeout=900 --continue-on-collection-errors',
               'source_commits': [], 'add_only': True},
     'engines': [
-        {'name': 'symx', 'path': 'symx/', 'serves_properties': sorted(CLAIMED),
+        {'name': 'crosshair', 'path': 'props/c15.py', 'serves_properties': ['C15'], 'kind_free_text': 'CrossHair symbolic execution (z3) of generated contracts over the real group classes'},
+        {'name': 'symx', 'path': 'symx/', 'serves_properties': sorted(set(CLAIMED) - {'C15'}),
          'kind_free_text': 'own symbolic executor: Cython->Python translation of /repo source at run time, z3-backed proxy values, re-execution DFS path exploration, SMT per obligation, float/compiled replay'},
     ],
     'checks': checks,
